@@ -153,7 +153,7 @@ def mutants(chk, prop, tier, wd, tape_files):
     rng = random.Random(common.seed())
     outs = []
     heavy = prop in ("C06", "C19")
-    per_start = int(os.environ.get("VERIF_MUTANT_SEEDS", "0")) or ((400 if heavy else 4000) if tier == "quick" else (4000 if heavy else (6000 if prop == "C17" else 30000)))
+    per_start = int(os.environ.get("VERIF_MUTANT_SEEDS", "0")) or ((400 if heavy else 4000) if tier == "quick" else (2000 if heavy or prop == "C17" else 10000))   # thorough sentences are longer: the mutant set grows with the square of the length
     for (tapes, n) in tape_files:
         tag = os.path.basename(tapes)[6:-7]
         # the dense corpora (all optional clauses of a construct present) are the richest seeds for sibling swaps: always taken whole
